@@ -200,12 +200,29 @@ fn rec_decode_frame(content: &[u8], bytes_per_pixel: usize, pixels_per_row: usiz
     Ok(Vec::new())
 }
 
+/// Error-text stub: `Dictionary::get` eagerly builds `String::from_utf8_lossy(key)` for its error
+/// value on every call; the text is irrelevant to every property examined here.
+pub(crate) fn lossy_stub(_v: &[u8]) -> std::borrow::Cow<'_, str> {
+    std::borrow::Cow::Borrowed("")
+}
+
+fn int_or_null(present: bool, v: i64) -> Object {
+    if present {
+        Object::Integer(v)
+    } else {
+        Object::Null
+    }
+}
+
 /// Legal parameter space (ISO 32000 Table 8 with BitsPerComponent restricted to 8 and 16 as the
 /// property states): predictor 10..=15 reaches the PNG un-filter with bytes-per-pixel =
 /// Colors*Bits/8 and row length Columns; predictor 1 / absent leaves the data alone.
+/// (Dictionary shape is concrete; "absent" is modelled by a null value, which lopdf's accessor
+/// chain `get(..).and_then(as_i64)` treats exactly like a missing key.)
 #[kani::proof]
 #[kani::unwind(20)]
 #[kani::stub(crate::filters::png::decode_frame, rec_decode_frame)]
+#[kani::stub(std::string::String::from_utf8_lossy, lossy_stub)]
 fn c09_predictor_params() {
     let pred: i64 = kani::any();
     let cols: i64 = kani::any();
@@ -219,15 +236,9 @@ fn c09_predictor_params() {
     let has_bits: bool = kani::any();
     let mut d = Dictionary::new();
     d.set("Predictor", pred);
-    if has_cols {
-        d.set("Columns", cols);
-    }
-    if has_colors {
-        d.set("Colors", colors);
-    }
-    if has_bits {
-        d.set("BitsPerComponent", if bits16 { 16i64 } else { 8i64 });
-    }
+    d.set("Columns", int_or_null(has_cols, cols));
+    d.set("Colors", int_or_null(has_colors, colors));
+    d.set("BitsPerComponent", int_or_null(has_bits, if bits16 { 16 } else { 8 }));
     let data = vec![7u8, 8, 9];
     let r = Stream::decompress_predictor(data, Some(&d));
     let calls = REC_CALLS.load(Ordering::Relaxed);
@@ -269,6 +280,7 @@ fn c09_predictor_none() {
 #[kani::proof]
 #[kani::unwind(20)]
 #[kani::stub(crate::filters::png::decode_frame, rec_decode_frame)]
+#[kani::stub(std::string::String::from_utf8_lossy, lossy_stub)]
 fn c04_predictor_params_any() {
     let cols: i64 = kani::any();
     let colors: i64 = kani::any();
@@ -359,28 +371,32 @@ fn predictor_frame_harness<const ROW: usize, const TOTAL: usize>(cols: i64, colo
 }
 
 #[kani::proof]
-#[kani::unwind(20)]
+#[kani::unwind(8)]
+#[kani::stub(std::string::String::from_utf8_lossy, lossy_stub)]
 fn c09_predictor_frame_c2_k1_b8() {
     predictor_frame_harness::<2, 6>(2, 1, 8);
 }
 #[kani::proof]
-#[kani::unwind(20)]
+#[kani::unwind(8)]
+#[kani::stub(std::string::String::from_utf8_lossy, lossy_stub)]
 fn c09_predictor_frame_c1_k1_b16() {
     predictor_frame_harness::<2, 6>(1, 1, 16);
 }
 #[kani::proof]
-#[kani::unwind(20)]
+#[kani::unwind(8)]
+#[kani::stub(std::string::String::from_utf8_lossy, lossy_stub)]
 fn c09_predictor_frame_c1_k3_b8() {
     predictor_frame_harness::<3, 8>(1, 3, 8);
 }
 #[kani::proof]
-#[kani::unwind(20)]
+#[kani::unwind(8)]
+#[kani::stub(std::string::String::from_utf8_lossy, lossy_stub)]
 fn c09_predictor_frame_c2_k1_b16() {
     predictor_frame_harness::<4, 10>(2, 1, 16);
 }
 
 // ------------------------------------------------------------------------------------------------
-// Length bookkeeping and "compress never makes the stream longer"
+// Length bookkeeping and "compress never makes the stream longer" (concrete shapes, symbolic bytes)
 // ------------------------------------------------------------------------------------------------
 fn length_entry(s: &Stream) -> i64 {
     match s.dict.get(b"Length") {
@@ -389,288 +405,298 @@ fn length_entry(s: &Stream) -> i64 {
     }
 }
 
+fn filtered_base() -> Dictionary {
+    let mut base = Dictionary::new();
+    base.set("Filter", Object::Name(b"FlateDecode".to_vec()));
+    base.set("DecodeParms", Object::Null);
+    base
+}
+
 #[kani::proof]
 #[kani::unwind(12)]
-fn c09_length_set_ops() {
+#[kani::stub(std::string::String::from_utf8_lossy, lossy_stub)]
+fn c09_length_set_content() {
     let init: [u8; 3] = kani::any();
-    let mut base = Dictionary::new();
-    let with_filter: bool = kani::any();
-    if with_filter {
-        base.set("Filter", Object::Name(b"FlateDecode".to_vec()));
-        base.set("DecodeParms", Object::Null);
-    }
-    let mut s = Stream::new(base, init.to_vec());
+    let mut s = Stream::new(filtered_base(), init.to_vec());
     assert!(length_entry(&s) == 3, "Stream::new must set Length");
     let newc: [u8; 2] = kani::any();
-    let n: usize = any_in(0, 2);
-    let op: u8 = kani::any();
-    match op % 3 {
-        0 => {
-            s.set_content(newc[..n].to_vec());
-            assert!(s.dict.has(b"Filter") == with_filter);
-        }
-        1 => {
-            s.set_plain_content(newc[..n].to_vec());
-            assert!(!s.dict.has(b"Filter") && !s.dict.has(b"DecodeParms"), "plain content must drop Filter/DecodeParms");
-        }
-        _ => {
-            if with_filter {
-                // tagged stub inflate: bytes XOR 0x55, no predictor (DecodeParms is Null)
-                let r = s.decompress();
-                assert!(r.is_ok());
-                assert!(!s.dict.has(b"Filter") && !s.dict.has(b"DecodeParms"));
-                assert!(s.content.len() == 3 && s.content[0] == init[0] ^ 0x55 && s.content[2] == init[2] ^ 0x55);
-                std::mem::forget(r);
-            }
-        }
-    }
-    assert!(length_entry(&s) == s.content.len() as i64, "Length must equal content length after every content-changing operation");
-    if op % 3 != 2 {
-        assert!(same_bytes(&s.content, &newc[..n]));
-    }
-    kani::cover!(op % 3 == 2 && with_filter);
-    kani::cover!(op % 3 == 1 && n == 2);
+    s.set_content(newc.to_vec());
+    assert!(s.dict.has(b"Filter"), "set_content must keep the filter");
+    assert!(length_entry(&s) == 2 && s.content.len() == 2 && s.content[0] == newc[0] && s.content[1] == newc[1], "Length must equal content length");
+    kani::cover!(true);
+    std::mem::forget(s);
+}
+
+#[kani::proof]
+#[kani::unwind(12)]
+#[kani::stub(std::string::String::from_utf8_lossy, lossy_stub)]
+fn c09_length_set_plain_content() {
+    let init: [u8; 3] = kani::any();
+    let mut s = Stream::new(filtered_base(), init.to_vec());
+    let newc: [u8; 2] = kani::any();
+    s.set_plain_content(newc.to_vec());
+    assert!(!s.dict.has(b"Filter") && !s.dict.has(b"DecodeParms"), "plain content must drop Filter/DecodeParms");
+    assert!(length_entry(&s) == 2 && s.content.len() == 2 && s.content[0] == newc[0] && s.content[1] == newc[1], "Length must equal content length");
+    kani::cover!(true);
+    std::mem::forget(s);
+}
+
+#[kani::proof]
+#[kani::unwind(12)]
+#[kani::stub(std::string::String::from_utf8_lossy, lossy_stub)]
+fn c09_length_decompress() {
+    let init: [u8; 3] = kani::any();
+    let mut s = Stream::new(filtered_base(), init.to_vec());
+    // tagged stub inflate: bytes XOR 0x55, no predictor (DecodeParms is Null)
+    let r = s.decompress();
+    assert!(r.is_ok());
+    assert!(!s.dict.has(b"Filter") && !s.dict.has(b"DecodeParms"), "decompress must remove Filter and DecodeParms");
+    assert!(s.content.len() == 3 && s.content[0] == init[0] ^ 0x55 && s.content[2] == init[2] ^ 0x55);
+    assert!(length_entry(&s) == 3, "Length must equal content length");
+    kani::cover!(true);
+    std::mem::forget(r);
     std::mem::forget(s);
 }
 
 /// compress(): with an encoder whose output length is arbitrary (0..=len+2), the stream never gets
-/// longer, Length stays consistent, Filter is set iff the content was replaced, and an already
-/// filtered stream is left alone.
+/// longer, Length stays consistent and Filter is set iff the content was replaced.
 #[kani::proof]
 #[kani::unwind(30)]
+#[kani::stub(std::string::String::from_utf8_lossy, lossy_stub)]
 fn c09_compress_never_longer() {
     const L: usize = 22;
     let fill: u8 = kani::any();
     let content = vec![fill; L];
-    let pre_filtered: bool = kani::any();
-    let mut base = Dictionary::new();
-    if pre_filtered {
-        base.set("Filter", Object::Name(b"ASCII85Decode".to_vec()));
-    }
-    let mut s = Stream::new(base, content);
+    let mut s = Stream::new(Dictionary::new(), content);
     let r = s.compress();
     assert!(r.is_ok());
     assert!(s.content.len() <= L, "compress made the stream longer");
     assert!(length_entry(&s) == s.content.len() as i64, "Length != content length after compress");
-    if pre_filtered {
-        assert!(s.content.len() == L && s.content[0] == fill, "compress must not touch an already filtered stream");
-        assert!(s.dict.get(b"Filter").and_then(Object::as_name).ok() == Some(b"ASCII85Decode".as_slice()));
-    } else if s.dict.has(b"Filter") {
+    if s.dict.has(b"Filter") {
         assert!(s.content.len() < L, "Filter set but content not replaced by something shorter");
         assert!(s.dict.get(b"Filter").and_then(Object::as_name).ok() == Some(b"FlateDecode".as_slice()));
     } else {
         assert!(s.content.len() == L && s.content[L - 1] == fill, "content changed without Filter");
     }
-    kani::cover!(!pre_filtered && s.dict.has(b"Filter"));
-    kani::cover!(!pre_filtered && !s.dict.has(b"Filter"));
+    kani::cover!(s.dict.has(b"Filter"));
+    kani::cover!(!s.dict.has(b"Filter"));
+    std::mem::forget(r);
+    std::mem::forget(s);
+}
+
+/// An already filtered stream is left alone by compress().
+#[kani::proof]
+#[kani::unwind(30)]
+#[kani::stub(std::string::String::from_utf8_lossy, lossy_stub)]
+fn c09_compress_prefiltered() {
+    const L: usize = 22;
+    let fill: u8 = kani::any();
+    let mut base = Dictionary::new();
+    base.set("Filter", Object::Name(b"ASCII85Decode".to_vec()));
+    let mut s = Stream::new(base, vec![fill; L]);
+    let r = s.compress();
+    assert!(r.is_ok());
+    assert!(s.content.len() == L && s.content[0] == fill && s.content[L - 1] == fill, "compress must not touch an already filtered stream");
+    assert!(s.dict.get(b"Filter").and_then(Object::as_name).ok() == Some(b"ASCII85Decode".as_slice()));
+    assert!(length_entry(&s) == L as i64);
+    kani::cover!(true);
     std::mem::forget(r);
     std::mem::forget(s);
 }
 
 // ------------------------------------------------------------------------------------------------
 // Filter-chain plumbing (codecs are tagged transparent stubs: Flate = XOR 0x55,
-// LZW = XOR 0xA5 (EarlyChange 1, default) / XOR 0xAA (EarlyChange 0))
+// LZW = XOR 0xA5 (EarlyChange 1, default) / XOR 0xAA (EarlyChange 0)).  Chain SHAPES are concrete
+// (one harness per shape); content bytes, EarlyChange values and predictor rows are symbolic.
 // ------------------------------------------------------------------------------------------------
-fn filter_name(k: u8) -> &'static [u8] {
-    match k {
-        0 => b"FlateDecode",
-        1 => b"LZWDecode",
-        _ => b"ASCII85Decode",
-    }
+const FL: u8 = 0;
+const LZ: u8 = 1;
+fn filter_name(k: u8) -> Object {
+    Object::Name(match k {
+        FL => b"FlateDecode".to_vec(),
+        LZ => b"LZWDecode".to_vec(),
+        _ => b"ASCII85Decode".to_vec(),
+    })
 }
-
-/// Reference for one stage on a fixed-capacity buffer. `early` = EarlyChange for this stage,
-/// `up_pred` = stage parameters carry Predictor 12 / Columns 1 (rows of 1 byte + filter byte).
-/// Returns false if the reference leaves the result undefined (then nothing is asserted).
-fn ref_stage(kind: u8, early: bool, up_pred: bool, buf: &mut Buf<16>) -> bool {
-    if kind == 2 {
-        let mut out = Buf::<16>::new();
-        let inp = *buf;
-        match ref_a85::<16, 16>(inp.as_slice(), &mut out) {
-            A85::Ok => {
-                *buf = out;
-                true
-            }
-            A85::Undefined => false,
-        }
+fn tag(k: u8, early: bool) -> u8 {
+    if k == FL {
+        0x55
+    } else if early {
+        0xA5
     } else {
-        let tag = if kind == 0 {
-            0x55
-        } else if early {
-            0xA5
-        } else {
-            0xAA
-        };
-        let mut i = 0;
-        while i < buf.n {
-            buf.b[i] ^= tag;
-            i += 1;
-        }
-        if up_pred {
-            // Predictor 12, Columns 1, Colors 1, Bits 8: rows are (filter byte, 1 data byte)
-            if buf.n % 2 != 0 {
-                return false;
-            }
-            let mut out = Buf::<16>::new();
-            let mut prev = 0u8;
-            let mut i = 0;
-            while i < buf.n {
-                let ft = buf.b[i];
-                let x = buf.b[i + 1];
-                if ft > 4 {
-                    return false;
-                }
-                let v = match ft {
-                    0 => x,
-                    1 => x,
-                    2 => x.wrapping_add(prev),
-                    3 => x.wrapping_add(prev / 2),
-                    _ => x.wrapping_add(prev),
-                };
-                out.push(v);
-                prev = v;
-                i += 2;
-            }
-            *buf = out;
-        }
-        true
+        0xAA
     }
 }
-
-fn parms_dict(early_present: bool, early: bool, up_pred: bool) -> Dictionary {
-    let mut d = Dictionary::new();
-    if early_present {
-        d.set("EarlyChange", if early { 1i64 } else { 0i64 });
+/// PNG Up-predictor (Predictor 12, Columns 1): rows are (filter byte, 1 data byte); reference for two rows.
+fn ref_up2(d: [u8; 4]) -> Option<[u8; 2]> {
+    if d[0] > 4 || d[2] > 4 {
+        return None;
     }
+    let r0 = d[1]; // previous row is zero: every filter type leaves the first row's byte unchanged (Avg: + 0/2, Paeth: + 0)
+    let r1 = match d[2] {
+        0 | 1 => d[3],
+        2 => d[3].wrapping_add(r0),
+        3 => d[3].wrapping_add(r0 / 2),
+        _ => d[3].wrapping_add(r0),
+    };
+    Some([r0, r1])
+}
+fn parms(early: i64, up_pred: bool) -> Object {
+    let mut d = Dictionary::new();
+    d.set("EarlyChange", early);
     if up_pred {
         d.set("Predictor", 12i64);
         d.set("Columns", 1i64);
     }
-    d
+    Object::Dictionary(d)
 }
 
-/// One filter given as a Name with DecodeParms given as a dictionary (the ISO single-filter form).
-#[kani::proof]
-#[kani::unwind(20)]
-fn c09_chain_single_dict() {
-    let kind: u8 = any_in(0, 1) as u8;
+/// One filter (Name or one-element array) + DecodeParms dictionary with EarlyChange in {0,1} and
+/// Predictor 12: output = un-predict(tagged decode(content)).
+fn chain_single<const ARRAY: bool>(k: u8) {
     let content: [u8; 4] = kani::any();
-    let early_present: bool = kani::any();
     let early: bool = kani::any();
-    let up_pred: bool = kani::any();
-    let filter_as_array: bool = kani::any();
     let mut d = Dictionary::new();
-    if filter_as_array {
-        d.set("Filter", Object::Array(vec![Object::Name(filter_name(kind).to_vec())]));
+    if ARRAY {
+        d.set("Filter", Object::Array(vec![filter_name(k)]));
     } else {
-        d.set("Filter", Object::Name(filter_name(kind).to_vec()));
+        d.set("Filter", filter_name(k));
     }
-    d.set("DecodeParms", Object::Dictionary(parms_dict(early_present, early, up_pred)));
+    d.set("DecodeParms", parms(if early { 1 } else { 0 }, true));
     let s = Stream::new(d, content.to_vec());
     let r = s.decompressed_content();
-    let mut exp = Buf::<16>::new();
-    let mut i = 0;
-    while i < 4 {
-        exp.push(content[i]);
-        i += 1;
-    }
-    let eff_early = if early_present { early } else { true };
-    if ref_stage(kind, eff_early, up_pred, &mut exp) {
-        match &r {
-            Ok(v) => assert!(same_bytes(v, exp.as_slice()), "single-filter decode differs from reference plumbing"),
+    let t = tag(k, early);
+    let dec = [content[0] ^ t, content[1] ^ t, content[2] ^ t, content[3] ^ t];
+    match ref_up2(dec) {
+        Some(exp) => match &r {
+            Ok(v) => assert!(v.len() == 2 && v[0] == exp[0] && v[1] == exp[1], "single-filter decode: wrong EarlyChange/predictor plumbing"),
             Err(_) => panic!("single-filter decode failed on defined input"),
-        }
+        },
+        None => assert!(r.is_err(), "invalid PNG filter byte accepted"),
     }
-    kani::cover!(kind == 1 && early_present && !early && up_pred && r.is_ok());
+    kani::cover!(r.is_ok() && !early);
     std::mem::forget(r);
     std::mem::forget(s);
 }
-
-/// Filter array of length 1..=2 with DecodeParms given as an ARRAY parallel to the filters
-/// (ISO 32000-1 7.3.8.2 Table 5: "an array ... one for each filter, null for filters without parameters").
 #[kani::proof]
-#[kani::unwind(20)]
-fn c09_chain_parms_array() {
-    let nf: usize = any_in(1, 2);
-    let k0: u8 = any_in(0, 1) as u8;
-    let k1: u8 = any_in(0, 1) as u8;
+#[kani::unwind(14)]
+#[kani::stub(std::string::String::from_utf8_lossy, lossy_stub)]
+fn c09_chain_flate_name_dict() {
+    chain_single::<false>(FL);
+}
+#[kani::proof]
+#[kani::unwind(14)]
+#[kani::stub(std::string::String::from_utf8_lossy, lossy_stub)]
+fn c09_chain_lzw_array_dict() {
+    chain_single::<true>(LZ);
+}
+
+/// DecodeParms given as an ARRAY parallel to the filters (ISO 32000-1 7.3.8.2 Table 5): one filter.
+#[kani::proof]
+#[kani::unwind(14)]
+#[kani::stub(std::string::String::from_utf8_lossy, lossy_stub)]
+fn c09_chain_parms_array_1() {
     let content: [u8; 4] = kani::any();
-    let p0_null: bool = kani::any();
-    let p1_null: bool = kani::any();
-    let e0: bool = kani::any();
-    let e1: bool = kani::any();
-    let u0: bool = kani::any();
-    let u1: bool = kani::any();
-    let mut filters = vec![Object::Name(filter_name(k0).to_vec())];
-    let mut parms = vec![if p0_null { Object::Null } else { Object::Dictionary(parms_dict(true, e0, u0)) }];
-    if nf == 2 {
-        filters.push(Object::Name(filter_name(k1).to_vec()));
-        parms.push(if p1_null { Object::Null } else { Object::Dictionary(parms_dict(true, e1, u1)) });
-    }
     let mut d = Dictionary::new();
-    d.set("Filter", Object::Array(filters));
-    d.set("DecodeParms", Object::Array(parms));
+    d.set("Filter", Object::Array(vec![filter_name(FL)]));
+    d.set("DecodeParms", Object::Array(vec![parms(1, true)]));
     let s = Stream::new(d, content.to_vec());
     let r = s.decompressed_content();
-    let mut exp = Buf::<16>::new();
-    let mut i = 0;
-    while i < 4 {
-        exp.push(content[i]);
-        i += 1;
-    }
-    let mut defined = ref_stage(k0, if p0_null { true } else { e0 }, !p0_null && u0, &mut exp);
-    if defined && nf == 2 {
-        defined = ref_stage(k1, if p1_null { true } else { e1 }, !p1_null && u1, &mut exp);
-    }
-    if defined {
-        match &r {
-            Ok(v) => assert!(same_bytes(v, exp.as_slice()), "DecodeParms array form: stage parameters not applied to their filter"),
+    let dec = [content[0] ^ 0x55, content[1] ^ 0x55, content[2] ^ 0x55, content[3] ^ 0x55];
+    match ref_up2(dec) {
+        Some(exp) => match &r {
+            Ok(v) => assert!(v.len() == 2 && v[0] == exp[0] && v[1] == exp[1], "DecodeParms array form: stage parameters not applied to their filter"),
             Err(_) => panic!("DecodeParms array form: decode failed on defined input"),
-        }
+        },
+        None => assert!(r.is_err(), "invalid PNG filter byte accepted"),
     }
-    kani::cover!(nf == 2 && !p0_null && u0 && p1_null && r.is_ok());
+    kani::cover!(r.is_ok());
     std::mem::forget(r);
     std::mem::forget(s);
 }
 
-/// Filter order: chains of length 2..=3 over {Flate, LZW, ASCII85} without parameters are applied
-/// left to right.
+/// Two filters [LZW Flate] with DecodeParms [<<EarlyChange e>> null]: only the first stage gets
+/// parameters; no predictor anywhere.
 #[kani::proof]
-#[kani::unwind(20)]
-fn c09_chain_order() {
-    let nf: usize = any_in(2, 3);
-    let k0: u8 = any_in(0, 2) as u8;
-    let k1: u8 = any_in(0, 2) as u8;
-    let k2: u8 = any_in(0, 2) as u8;
-    let content: [u8; 5] = kani::any();
-    let mut filters = vec![Object::Name(filter_name(k0).to_vec()), Object::Name(filter_name(k1).to_vec())];
-    if nf == 3 {
-        filters.push(Object::Name(filter_name(k2).to_vec()));
-    }
+#[kani::unwind(14)]
+#[kani::stub(std::string::String::from_utf8_lossy, lossy_stub)]
+fn c09_chain_parms_array_2() {
+    let content: [u8; 3] = kani::any();
+    let early: bool = kani::any();
     let mut d = Dictionary::new();
-    d.set("Filter", Object::Array(filters));
+    d.set("Filter", Object::Array(vec![filter_name(LZ), filter_name(FL)]));
+    d.set("DecodeParms", Object::Array(vec![parms(if early { 1 } else { 0 }, false), Object::Null]));
     let s = Stream::new(d, content.to_vec());
     let r = s.decompressed_content();
-    let mut exp = Buf::<16>::new();
+    let t = tag(LZ, early) ^ 0x55;
+    match &r {
+        Ok(v) => assert!(v.len() == 3 && v[0] == content[0] ^ t && v[2] == content[2] ^ t, "DecodeParms array form: EarlyChange of stage 1 not applied / applied to the wrong stage"),
+        Err(_) => panic!("two-stage decode failed"),
+    }
+    kani::cover!(!early);
+    std::mem::forget(r);
+    std::mem::forget(s);
+}
+
+/// Order of filters: [ASCII85 Flate] on "<5 symbolic chars>~>" = inflate(ascii85(content)).
+#[kani::proof]
+#[kani::unwind(24)]
+#[kani::stub(std::string::String::from_utf8_lossy, lossy_stub)]
+fn c09_chain_order_a85_flate() {
+    let body: [u8; 5] = kani::any();
     let mut i = 0;
     while i < 5 {
-        exp.push(content[i]);
+        kani::assume(body[i] >= b'!' && body[i] <= b'u');
         i += 1;
     }
-    let mut defined = ref_stage(k0, true, false, &mut exp);
-    if defined {
-        defined = ref_stage(k1, true, false, &mut exp);
-    }
-    if defined && nf == 3 {
-        defined = ref_stage(k2, true, false, &mut exp);
-    }
-    if defined {
+    let content = [body[0], body[1], body[2], body[3], body[4], b'~', b'>'];
+    let mut d = Dictionary::new();
+    d.set("Filter", Object::Array(vec![filter_name(2), filter_name(FL)]));
+    let s = Stream::new(d, content.to_vec());
+    let r = s.decompressed_content();
+    let mut exp = Buf::<20>::new();
+    if matches!(ref_a85::<7, 20>(&content, &mut exp), A85::Ok) {
         match &r {
-            Ok(v) => assert!(same_bytes(v, exp.as_slice()), "filter chain not applied in array order"),
-            Err(_) => panic!("filter chain failed on defined input"),
+            Ok(v) => assert!(v.len() == 4 && v[0] == exp.b[0] ^ 0x55 && v[1] == exp.b[1] ^ 0x55 && v[2] == exp.b[2] ^ 0x55 && v[3] == exp.b[3] ^ 0x55, "filters not applied in array order"),
+            Err(_) => panic!("chain failed on defined input"),
         }
     }
-    kani::cover!(nf == 3 && k0 == 2 && k1 == 0 && k2 == 1 && r.is_ok());
+    kani::cover!(r.is_ok());
+    std::mem::forget(r);
+    std::mem::forget(s);
+}
+
+/// Order of filters: [Flate LZW Flate] (three stages, no parameters): all tags applied.
+#[kani::proof]
+#[kani::unwind(14)]
+#[kani::stub(std::string::String::from_utf8_lossy, lossy_stub)]
+fn c09_chain_order_3() {
+    let content: [u8; 3] = kani::any();
+    let mut d = Dictionary::new();
+    d.set("Filter", Object::Array(vec![filter_name(FL), filter_name(LZ), filter_name(FL)]));
+    let s = Stream::new(d, content.to_vec());
+    let r = s.decompressed_content();
+    match &r {
+        Ok(v) => assert!(v.len() == 3 && v[0] == content[0] ^ 0xA5 && v[1] == content[1] ^ 0xA5 && v[2] == content[2] ^ 0xA5, "three-stage chain: some stage skipped or repeated"),
+        Err(_) => panic!("three-stage decode failed"),
+    }
+    kani::cover!(true);
+    std::mem::forget(r);
+    std::mem::forget(s);
+}
+
+/// Unknown filter name in the chain: an error, not a panic and not silently skipped.
+#[kani::proof]
+#[kani::unwind(14)]
+#[kani::stub(std::string::String::from_utf8_lossy, lossy_stub)]
+fn c09_chain_unknown_filter() {
+    let content: [u8; 2] = kani::any();
+    let mut d = Dictionary::new();
+    d.set("Filter", Object::Array(vec![filter_name(FL), Object::Name(b"DCTDecode".to_vec())]));
+    let s = Stream::new(d, content.to_vec());
+    let r = s.decompressed_content();
+    assert!(r.is_err(), "unsupported filter silently ignored");
+    kani::cover!(true);
     std::mem::forget(r);
     std::mem::forget(s);
 }
